@@ -133,7 +133,7 @@ def classTable (fx : Fixes) (f : File) : List (String × Bool) :=
    ("helperCapture", !fx.helperClashErr && f.helperCapture fx),
    ("dupTerminal", !fx.dupNameErr && f.dupTerminal),
    ("ruleIsTerminal", !fx.dupNameErr && f.ruleIsTerminal),
-   ("reservedRule", f.reservedRule)]
+   ("reservedRule", !fx.reservedErr && f.reservedRule)]
 
 def failingClasses (fx : Fixes) (f : File) : List String :=
   ((classTable fx f).filter (·.2)).map (·.1)
